@@ -25,7 +25,7 @@ import copy
 
 PURE_CALLS = {"slice", "str", "len", "int", "float", "bool", "abs", "min", "max", "sum", "sorted", "list", "tuple", "set", "dict", "range", "enumerate", "zip", "reversed", "isinstance", "round", "repr", "any", "all"}
 
-PURE_METHODS = {"index", "count"}  # list / tuple / str queries
+PURE_METHODS = {"index", "count", "get", "keys", "values", "items"}  # list / tuple / str queries
 _NONMUTATING_ROOTS = {"np", "numpy", "nla", "math", "sla", "scipy", "la", "copy"}
 
 # functions the rule modules address by name: they are analysis anchors and are never inlined away
@@ -268,7 +268,8 @@ class _ChainFlatten(ast.NodeTransformer):
                 for og in node.generators:
                     if og is not g:
                         outer_names |= _names_stored(og.target)
-                if (uses <= 1 or _is_simple_expr(inner.elt)) and not (inner_names & outer_names) and t not in inner_names:
+                same_var = isinstance(inner.elt, ast.Name) and inner.elt.id == t
+                if (uses <= 1 or _is_simple_expr(inner.elt)) and not ((inner_names - ({t} if same_var else set())) & outer_names) and (t not in inner_names or same_var):
                     m = {t: inner.elt}
                     new_gens = node.generators[:k] + list(inner.generators)
                     if g.ifs:
@@ -312,6 +313,11 @@ class _BoolSimplify(ast.NodeTransformer):
             b = ast.Call(func=node.func.orelse, args=copy.deepcopy(node.args), keywords=copy.deepcopy(node.keywords))
             self.changed = True
             return ast.fix_missing_locations(ast.copy_location(ast.IfExp(test=node.func.test, body=a, orelse=b), node))
+        # np.array(..).mean(axis=0)  ->  np.mean(np.array(..), axis=0)   (receiver known to be an ndarray)
+        if isinstance(node.func, ast.Attribute) and node.func.attr in ("mean", "sum", "min", "max", "std", "var", "all", "any", "argmin", "argmax", "argsort", "prod") and isinstance(node.func.value, ast.Call) and _u(node.func.value.func) in ("np.array", "np.asarray", "np.stack", "np.vstack", "np.concatenate", "numpy.array", "numpy.asarray"):
+            self.changed = True
+            new = ast.Call(func=ast.Attribute(value=ast.Name(id=_u(node.func.value.func).split(".")[0], ctx=ast.Load()), attr=node.func.attr, ctx=ast.Load()), args=[node.func.value] + list(node.args), keywords=node.keywords)
+            return ast.fix_missing_locations(ast.copy_location(new, node))
         if isinstance(node.func, ast.Name) and node.func.id == "getattr" and len(node.args) == 2 and not node.keywords and isinstance(node.args[1], ast.Constant) and isinstance(node.args[1].value, str) and node.args[1].value.isidentifier():
             self.changed = True
             return ast.copy_location(ast.Attribute(value=node.args[0], attr=node.args[1].value, ctx=ast.Load()), node)
@@ -554,8 +560,7 @@ def _single_direct_use(x, v) -> bool:
             in_first = any(u is uses[0] for u in ast.walk(first_iter))
             if inside and not in_first:
                 return False
-            if isinstance(n, ast.GeneratorExp) and inside:
-                return False
+            # (the first iterable of a generator expression is evaluated when the expression is created, like a list's)
     return True
 
 
@@ -1450,6 +1455,7 @@ class Inliner:
         self.changed = False
         self.counter = 0
         self.helpers = {}  # key -> (FunctionDef, kind, class name | None)
+        self.props = {}  # (class name, property name) -> (FunctionDef, self parameter, returned expression): private pure properties
         self._collect()
 
     def _collect(self):
@@ -1466,6 +1472,11 @@ class Inliner:
         if not name.startswith("_") or name.startswith("__") or name in ANCHORS:
             return
         decos = [_u(d) for d in fn.decorator_list]
+        if decos == ["property"] and cls is not None and len(fn.args.args) == 1:
+            pbody = [s for s in fn.body if not (isinstance(s, ast.Expr) and isinstance(s.value, ast.Constant))]
+            if len(pbody) == 1 and isinstance(pbody[0], ast.Return) and pbody[0].value is not None and _is_simple_expr(pbody[0].value) and not any(isinstance(c, ast.ClassDef) and c is not cls and any(isinstance(b, ast.FunctionDef) and b.name == name for b in c.body) for c in self.tree.body):
+                self.props[(cls.name, name)] = (fn, fn.args.args[0].arg, pbody[0].value)
+            return
         if any(d in ("property", "abstractmethod") or d.endswith(".setter") for d in decos):
             return
         if fn.args.vararg or fn.args.kwarg or fn.args.kwonlyargs:
@@ -1492,7 +1503,7 @@ class Inliner:
         self.helpers[(cls.name if cls is not None else None, name)] = (fn, kind, body)
 
     def run(self):
-        if not self.helpers:
+        if not self.helpers and not self.props:
             return
         for n in self.tree.body:
             if isinstance(n, ast.FunctionDef):
@@ -1720,6 +1731,17 @@ class Inliner:
                     elif isinstance(old, ast.AST):
                         nv = self.visit(old)
                         setattr(node, field, nv)
+                return node
+
+            def visit_Attribute(self, node):
+                self.generic_visit(node)
+                if cls is not None and isinstance(node.ctx, ast.Load) and isinstance(node.value, ast.Name) and node.value.id == selfn and (cls.name, node.attr) in outer.props:
+                    pfn, pself, pexpr = outer.props[(cls.name, node.attr)]
+                    if pfn is not cur_fn:
+                        outer.changed = True
+                        e = _Rename({pself: ast.Name(id=selfn, ctx=ast.Load())}).visit(copy.deepcopy(pexpr))
+                        ast.copy_location(e, node)
+                        return ast.fix_missing_locations(e)
                 return node
 
             def visit_Call(self, node):
